@@ -69,6 +69,14 @@ Proof.
     exists (p ++ p2). rewrite app_assoc, E, <- !app_assoc. f_equal. exact E2.
 Qed.
 
+(* SECTIONS: each PROCESS_COMMUNICATION event of a run carries the data of its own
+   BEGIN..END section only *)
+Theorem blocks_independent : forall m blocks, blocks_run m [] blocks = map (bound_writes m) blocks.
+Proof.
+  intros m. induction blocks as [|c r IH]; [reflexivity|].
+  cbn [blocks_run map]. rewrite IH. reflexivity.
+Qed.
+
 Example capture_example :
   bound_writes 8 [[1; 2; 3; 4]; [5; 6; 7; 8]] = [1; 2; 3; 4; 5; 6; 7; 8] /\
   bound_writes 8 [[1; 2; 3; 4; 5; 6; 7; 8; 9; 10]] = [3; 4; 5; 6; 7; 8; 9; 10] /\
